@@ -12,12 +12,22 @@ def tier(ctx, quick, thorough):
 # ---------------------------------------------------------------------------
 # shared stages
 
-def buffer_model(ctx):
-    """MCBuffer: exhaustive buffer state machine, every transition replayed"""
-    consts = tier(ctx,
-                  dict(MaxOps=3, MaxPay=2, Alpha="A6", ByteArgs="QByteArgs", RuneArgs="QRuneArgs", RawFrags="QRawFrags", Spicy="QSpicy"),
-                  dict(MaxOps=4, MaxPay=2, Alpha="A6", ByteArgs="TByteArgs", RuneArgs="TRuneArgs", RawFrags="TRawFrags", Spicy="TSpicy"))
-    ctx.tlc_replay("MCBuffer", "Buffer.cfg", ["buffer-replay", "-prop", ctx.prop], consts=consts)
+def buffer_model(ctx, deep=True):
+    """MCBuffer: exhaustive buffer state machine, every transition replayed.
+    quick: every sequence of <= 3 operations, payloads <= 2 bytes, small argument sets;
+    thorough: (wide) <= 3 operations over the large argument sets, and -- for the properties whose subject is the
+    buffer itself (deep) -- every sequence of <= 4 operations with payloads <= 1 byte plus the spicy ones"""
+    if ctx.tier == "quick":
+        consts = dict(MaxOps=3, MaxPay=2, Alpha="A6", ByteArgs="QByteArgs", RuneArgs="QRuneArgs", RawFrags="QRawFrags", Spicy="QSpicy")
+        ctx.tlc_replay("MCBuffer", "Buffer.cfg", ["buffer-replay", "-prop", ctx.prop], consts=consts)
+        return
+    wide = dict(MaxOps=3, MaxPay=2, Alpha="A6", ByteArgs="TByteArgs", RuneArgs="TRuneArgs", RawFrags="TRawFrags", Spicy="TSpicy")
+    ctx.tlc_replay("MCBuffer", "Buffer.cfg", ["buffer-replay", "-prop", ctx.prop], consts=wide)
+    if deep:
+        dp = dict(MaxOps=4, MaxPay=2, Alpha="A6", ByteArgs="QByteArgs", RuneArgs="QRuneArgs", RawFrags="QRawFrags", Spicy="QSpicy")
+        ctx.tlc_replay("MCBuffer", "Buffer.cfg", ["buffer-replay", "-prop", ctx.prop], consts=dp)
+        dp6 = dict(MaxOps=6, MaxPay=1, Alpha="A6", ByteArgs="QByteArgs", RuneArgs="QRuneArgs", RawFrags="QRawFrags", Spicy="NoSpicy")
+        ctx.tlc_replay("MCBuffer", "Buffer.cfg", ["buffer-replay", "-prop", ctx.prop], consts=dp6)
 
 
 BUFFER_RULE = ("TLC enumerates every sequence of Write/WriteByte/WriteRune/SetMode/Reset/Take up to MaxOps operations "
@@ -63,7 +73,7 @@ def c07(ctx):
 
 def c10(ctx):
     ctx.tlc_replay("MCEscape", "Escape.cfg", ["escape-replay", "-prop", "C10"], consts=dict(MaxTok=tier(ctx, 4, 5)))
-    buffer_model(ctx)
+    buffer_model(ctx, deep=False)
     n, tracen = tier(ctx, (20000, 5000), (300000, 40000))
     trace = ctx.work + "/escape.ndjson"
     ctx.harness(["escape-drive", "-n", str(n), "-trace", trace, "-tracen", str(tracen)])
@@ -87,11 +97,21 @@ def printer_control_f3(ctx):
                 (not st["ok"]) and '"C06"' in st["text"])
 
 
+def printer_control_f8(ctx):
+    """vacuity control: on the specification of the code BEFORE the repair of F8 (SafeMessager taking the safe override
+    for every verb) TLC must find the classification invariant violated (slice cls holds SafeMessagers under %d)"""
+    st = ctx.tlc_only("MCPrinter", "Printer.cfg", expect_ok=False,
+                      consts=dict(Slice='"cls"', EmitOn="FALSE", SMOverride='"always"'))
+    ctx.control("classification invariant on the pre-repair model (SMOverride=always) must fail",
+                (not st["ok"]) and '"C05"' in st["text"])
+
+
 def c02(ctx):
+    printer_control_f8(ctx)
     for sl in tier(ctx, ["qcls", "wrap", "smoke", "dir"], ["cls", "wrap", "panic", "smoke", "dir"]):
         printer_slice(ctx, sl)
     ctx.harness(["maporder-drive", "-prop", "C02"])   # maps print in key order: order-isomorphic unsafe keys, same redacted text
-    buffer_model(ctx)      # a result that changes after it was returned is not independent of later data
+    buffer_model(ctx, deep=False)      # a result that changes after it was returned is not independent of later data
 
 
 def c05(ctx):
@@ -109,7 +129,7 @@ def c06(ctx):
 def c11(ctx):
     printer_slice(ctx, "panic")
     printer_slice(ctx, "dir")
-    buffer_model(ctx)
+    buffer_model(ctx, deep=False)
     ctx.harness(["fmtdiff-drive", "-prop", "C11", "-n", str(tier(ctx, 60000, 1500000))])
     if ctx.tier == "thorough":
         printer_slice(ctx, "smoke")
